@@ -12,6 +12,7 @@ import (
 	"github.com/kercylan98/vivid/internal/remoting"
 	"github.com/kercylan98/vivid/internal/remoting/serialize"
 	"github.com/kercylan98/vivid/internal/scheduler"
+	"github.com/reugn/go-quartz/quartz"
 )
 
 // C18 — gossip on N LIVE systems (real System, real @cluster NodeActor with
@@ -35,13 +36,14 @@ type vhCluster struct {
 }
 
 func vhClusterOptions(id string, seeds []string) vivid.ClusterOptions {
-	return vivid.ClusterOptions{
-		NodeID:                  id,
-		ClusterName:             "c",
-		Seeds:                   seeds,
-		DiscoveryInterval:       time.Second,
-		FailureDetectionTimeout: 4 * time.Second,
-	}
+	// the library's own defaults (NewClusterOptions), then the harness's choices
+	return *vivid.NewClusterOptions(
+		vivid.WithClusterNodeID(id),
+		vivid.WithClusterName("c"),
+		vivid.WithClusterSeeds(seeds),
+		vivid.WithClusterDiscoveryInterval(time.Second),
+		vivid.WithClusterFailureDetectionTimeout(4*time.Second),
+	)
 }
 
 func (cl *vhCluster) startNode(i int, addr, id string, seeds []string) *vhNode {
@@ -272,4 +274,52 @@ func VH_C18_converge() {
 	cl.assertConverged(ids, gens)
 	vrtAssert(cl.undecoded == 0, "every-frame-decodes")
 	vrtReach("stable")
+}
+
+// VH_C07_clustered_stop: a cluster-enabled system (one live node, its own
+// seed) is shut down by Stop() or by cancelling the context it was created
+// with. stop() first leaves the cluster (blocking until the node actor reports
+// the leave completed), then terminates the tree. With a cancelled context the
+// system's scheduler no longer fires anything, so the leave must not depend on
+// a timer; with Stop() timers keep firing. Either way the shutdown completes:
+// nobody blocks forever, the root terminates, the call returns nil.
+func VH_C07_clustered_stop() {
+	cl := &vhCluster{}
+	n := cl.startNode(0, "127.0.0.1:7001", "id1", []string{"127.0.0.1:7001"})
+	vrtYield()
+	sys := n.sys
+	clusterRef, err := NewRef("127.0.0.1:7001", "/@cluster")
+	vrtAssert(err == nil, "setup")
+	sys.clusterContext = cluster.NewContext(sys, clusterRef, nil)
+	cancelled := 0
+	realCancel := sys.cancel
+	sys.cancel = func() { cancelled++; realCancel() }
+	byCancel := vrtBool()
+	if byCancel {
+		sys.cancel()
+		err = sys.stop(false) // what the guardian goroutine of Start() does
+		vrtReach("by-context-cancel")
+	} else {
+		// the scheduler is alive: pending run-once jobs fire while Stop waits
+		go func() {
+			for i := 0; i < 20; i++ {
+				vrtYield()
+				for _, k := range append([]string{}, n.quartz.Order...) {
+					if _, once := n.quartz.Triggers[k].(*quartz.RunOnceTrigger); once {
+						n.quartz.Fire(k)
+					}
+				}
+			}
+		}()
+		err = sys.Stop(time.Minute)
+		vrtReach("by-stop")
+	}
+	vrtAssert(err == nil, "shutdown-completes")
+	select {
+	case <-sys.guardClosedSignal:
+	default:
+		vrtAssert(false, "shutdown-terminates-the-root")
+	}
+	vrtAssert(sys.status == stop, "status-is-stopped")
+	vrtAssert(n.quartz.Stopped, "scheduler-stopped")
 }
